@@ -58,3 +58,28 @@ func RemoteVia(runChild func(env []string) (string, error), scratch string, budg
 		return r.Exec, r.OK
 	}
 }
+
+// ExploreIsolating is Explore with the fallback built in. In the child of an isolated exploration it runs the one
+// schedule it was given. Otherwise it explores in-process and, if prefix replay diverged (process-global state of the
+// code under test survived from one execution to the next) and budget allows, explores again with one process per
+// execution. isolated tells which. A result that still has Diverged set means the budget was used up.
+func (e *Explorer) ExploreIsolating(runChild func(env []string) (string, error), scratch string, budget *int, crashed func(prefix []int, stderr string, err error)) (res Result, isolated bool) {
+	if choices, child := ChildChoices(); child {
+		x := e.Replay(choices)
+		if dv := e.Diverged(); dv != "" {
+			os.Stderr.WriteString("HARNESS-ERROR: " + dv + " in a fresh process\n")
+			os.Exit(3)
+		}
+		WriteChildResult(x, e.Check(x))
+		return Result{Execs: 1, Steps: int64(len(x.Trace))}, false
+	}
+	res = e.Explore()
+	if res.Diverged == "" || *budget <= 0 {
+		return res, false
+	}
+	e.Remote = RemoteVia(runChild, scratch, budget, crashed)
+	e.Opt.StopAtFirst = true
+	res = e.Explore()
+	e.Remote = nil
+	return res, true
+}
